@@ -77,6 +77,8 @@ class Builder:
             return self.rxify(self.build(e["x"])).rx.in_(self.build(e["y"]))
         if kd == "pipe":
             return self.rxify(self.build(e["x"])).rx.pipe(_f, self.build(e["y"]))
+        if kd == "pipekw":
+            return self.rxify(self.build(e["x"])).rx.pipe(_f, v=self.build(e["y"]))
         if kd == "map":
             return self.rxify(self.build(e["x"])).rx.map(_g)
         if kd == "count":
